@@ -58,6 +58,10 @@ claim("C06", "field table of the open packet with resolved accessor chains, must
       "Static rules over engine/socket.go, engine/base-server.go, transports/builder.go, transports/transport.go: the open packet has exactly sid/upgrades/pingInterval/pingTimeout/maxPayload fed by s.id, getAvailableUpgrades and the Opts() accessors (intervals divided by time.Millisecond); transition ≺ SetSid ≺ OPEN (first packet, marshalled map) ≺ initial MESSAGE (a per-session Clone of the shared reader) ≺ Emit(open) ≺ heartbeat arming; upgrades = builder targets of the current transport filtered by enabled transports, empty when upgrades are disabled, builder table polling→{websocket,webtransport}; exactly one NewSocket/Store/Emit(connection) on the success path and none on reject paths; protocol = EIO==\"4\"?4:3 passed to NewSocket, the parser chosen on the same predicate, heartbeat mode keyed on s.protocol; per-transport limits handed over from the same option accessors. Numeric equality advertised = enforced at run time and JSON rendering are not decided.",
       TB, "DESIGN.md §3 C06")
 
+claim("C07", "duration table via resolved option-accessor chains, branch-effect table of onPacket by edge dominance, arming/use discriminator agreement (Engler-style contradiction rule) with nil-holder licence, timer polarity table",
+      "Static structural conditions only: ping delay = PingInterval; deadline = PingTimeout (v4) or PingInterval+PingTimeout (v3); each ping starts its deadline; the deadline closes with reason 'ping timeout' unless closed; PONG/PING branches have exactly their documented effects and the wrong-direction edges only onError+return; the direction test uses the same quantity (s.protocol) that armed the timers, so no Timer method runs on a nil holder; Refresh re-arms on every path; close and clearTransport cancel the timers. The timing clauses themselves (closed exactly at the deadline and never before; never closed if answered in time) are real-time relations and are NOT decided.",
+      TB, "DESIGN.md §3 C07")
+
 UNDER_CONSTRUCTION = "static rule set designed in DESIGN.md §3 but its checker is not built yet in this revision; not claimed until it is"
 
 def main():
